@@ -437,3 +437,94 @@ def c20(tier, seed):
     ck.assumptions = COMMON_ASSUMPTIONS[:4] + ['a failing underlying call returns io::Error(Other) without touching the filesystem']
     ck.rule = 'a state = (configuration, tree / layer assignment); a transition = one (operation, target, failing call index k) run; k ranges over all calls of the fault-free run'
     return ck.finish(prog)
+
+
+# ------------------------------------------------------------------------------------------ threads
+
+C16_OPS = ['create_dir', 'write', 'append', 'remove_file', 'remove_dir', 'exists', 'metadata', 'read_dir', 'read']
+C16_MUT = ['create_dir', 'write', 'append', 'remove_file', 'remove_dir']
+THREAD_ASSUMPTIONS = COMMON_ASSUMPTIONS[:4] + [
+    'interleavings are explored at lock-acquisition granularity: all state shared between threads of MemoryFS lives behind its one RwLock, code between two acquisitions touches thread-local data only (data-race freedom of RwLock)',
+    'a write session is two calls (create_file/append_file + handle write, then drop); which error kind a failing call reports is not compared',
+    'lock poisoning is out of scope; schedule counterexamples are replayed natively through the cfg(manuel_woelker_rust_vfs_verif) yield hook',
+]
+
+
+@prop('C16')
+def c16(tier, seed):
+    from . import threads
+    ck = Check('C16', tier, seed)
+    prog = load_program()
+    ck.selftest = quick_selftest(prog, seed, 8 if tier == 'quick' else 100, kinds=['mem'])
+    rng = random.Random(seed)
+    u = UNIVERSES['U3']()
+    shs = shapes(u)
+    calls = [(op, v) for op in C16_OPS for v in ('a', 'a_b', 'ab')]
+    pairs = []
+    for i, c1 in enumerate(calls):
+        for c2 in calls[i:]:
+            if c1[0] not in C16_MUT and c2[0] not in C16_MUT:
+                continue
+            related = c1[1] == c2[1] or {c1[1], c2[1]} == {'a', 'a_b'}
+            if related:
+                pairs.append([[c1], [c2]])
+    cases = []
+    for sh in shs:
+        for pr in pairs:
+            cases.append({'cfg': 'mem', 'universe': 'U3', 'shape': sh, 'programs': pr, 'mode': 'linearizable'})
+    rng.shuffle(cases)
+    if tier == 'quick':
+        cases = cases[:420]
+    extra = []
+    if tier != 'quick':
+        # 2 threads x 2 calls and 3 threads x 1 call, sampled
+        for _ in range(500):
+            sh = rng.choice(shs)
+            extra.append({'cfg': 'mem', 'universe': 'U3', 'shape': sh, 'programs': [[rng.choice(calls), rng.choice(calls)], [rng.choice(calls)]], 'mode': 'linearizable'})
+        for _ in range(300):
+            sh = rng.choice(shs)
+            extra.append({'cfg': 'mem', 'universe': 'U3', 'shape': sh, 'programs': [[rng.choice(calls)], [rng.choice(calls)], [rng.choice(calls)]], 'mode': 'linearizable'})
+        for _ in range(200):
+            sh = rng.choice(shs)
+            extra.append({'cfg': rng.choice(['alt', 'ovl']), 'universe': 'U3', 'shape': sh, 'programs': [[rng.choice(calls)], [rng.choice(calls)]], 'mode': 'linearizable',
+                          'preemption_bound': 2})
+    ck.add(run_cases(prog, threads.run_concurrent_case, cases), '2 threads x 1 call on overlapping paths, every interleaving at lock granularity')
+    if extra:
+        ck.add(run_cases(prog, threads.run_concurrent_case, extra), '2x2, 3x1 calls and adapters over MemoryFS (sampled programs, every interleaving)')
+    ck.bounds = {'threads': '2 (quick); 2x2 and 3x1 sampled (thorough)', 'universe': 'U3 = {/a,/ab,/a/b}', 'interleaving_granularity': 'lock acquisition',
+                 'programs_quick': '420 seeded (state, call pair) cases of %d' % (len(shs) * len(pairs))}
+    ck.assumptions = THREAD_ASSUMPTIONS
+    ck.rule = 'a state = (initial tree, thread programs); a transition = one complete interleaving (schedule) explored on the real MIR; all schedules of each program are enumerated'
+    return ck.finish(prog)
+
+
+@prop('C17')
+def c17(tier, seed):
+    from . import threads
+    ck = Check('C17', tier, seed)
+    prog = load_program()
+    ck.selftest = quick_selftest(prog, seed, 8 if tier == 'quick' else 100, kinds=['mem', 'alt', 'ovl'])
+    u = UNIVERSES['U4']()
+    dshapes = [sh for sh in shapes(u) if all(k == 'd' for _, k in sh)]
+    targets = ['a', 'a_b', 'a_b_c', 'ab']
+    cases = []
+    for cfg in (['mem', 'alt', 'ovl'] if tier != 'quick' else ['mem', 'ovl']):
+        for sh in dshapes:
+            for i, t1 in enumerate(targets):
+                for t2 in targets[i:]:
+                    if cfg == 'ovl' and tier == 'quick' and len(sh) > 1:
+                        continue
+                    cases.append({'cfg': cfg, 'universe': 'U4', 'shape': sh, 'programs': [[('create_dir_all', t1)], [('create_dir_all', t2)]], 'mode': 'all_ok',
+                                  'preemption_bound': None if cfg == 'mem' else (1 if tier == 'quick' else 2)})
+    if tier != 'quick':
+        rng = random.Random(seed)
+        for _ in range(120):
+            cases.append({'cfg': 'mem', 'universe': 'U4', 'shape': rng.choice(dshapes),
+                          'programs': [[('create_dir_all', rng.choice(targets))] for _ in range(3)], 'mode': 'all_ok'})
+    ck.add(run_cases(prog, threads.run_concurrent_case, cases), 'concurrent create_dir_all on overlapping paths, every interleaving at lock granularity')
+    ck.bounds = {'threads': '2 (3 sampled in thorough)', 'paths': 'depth 1..3 sharing prefixes of every length (U4)', 'initial_states': 'every subset of the prefixes existing as directories',
+                 'configs': ['MemoryFS (every interleaving)', 'OverlayFS[Mem,Mem] (at most %d preemptive switches)' % (1 if tier == 'quick' else 2)] + (['AltrootFS/Mem (at most 2 preemptive switches)'] if tier != 'quick' else []),
+                 'not_encoded': 'the randomised PhysicalFS stress of the quantifier (mkdir(2) atomicity is a kernel property)'}
+    ck.assumptions = THREAD_ASSUMPTIONS
+    ck.rule = 'a state = (configuration, existing prefixes, target pair); a transition = one complete interleaving; all interleavings enumerated'
+    return ck.finish(prog)
